@@ -333,7 +333,7 @@ def run_item(item):
         "outcomes": {},
         "violations": [],
         "samples": [],
-        "extra": {"caps_hit": 0, "engine_calls": 0, "descriptors_checked": 0, "events_checked": 0, "redescribed_by_configure": 0, "unrelated_redescribed": 0},
+        "extra": {"caps_hit": 0, "nontrivial_cases": 0, "engine_calls": 0, "descriptors_checked": 0, "events_checked": 0, "redescribed_by_configure": 0, "unrelated_redescribed": 0},
     }
     for b in range(0, len(seqs), BATCH):
         batch = seqs[b : b + BATCH]
@@ -361,6 +361,7 @@ def run_item(item):
             out["extra"]["unrelated_redescribed"] += facts["unrelated_redescribed"]
             if facts.get("nontrivial"):
                 out["nontrivial"].add(dg)
+                out["extra"]["nontrivial_cases"] += 1
             cls = f"events={min(facts['events'], 4)}|redescribed={min(facts['redescribed'], 4)}|renewed-used={min(facts['renewals_used'], 3)}"
             out["outcomes"][cls] = out["outcomes"].get(cls, 0) + 1
             if viol is not None:
